@@ -78,7 +78,7 @@ CHECKS = {
     },
     "C20": {
         "level": "exploration",
-        "rule": "ConstantTimeCmp vs bytes.Compare: ALL 65,536 one-byte pairs, all pairs over {00,7f,ff} up to length 5 (6 thorough), single differing byte at every position for lengths 1..64, borrow chains, extremes, l<len; DecomposeNAF for w=1..7 vs the recoding definition (digits zero/odd, |d|<2^w, >=w zeros after a non-zero, weighted sum) on single bits, 2^k-1, 2^256-2^k, byte patterns, runs at every bit offset, n, p and random 256-bit inputs; a class is (helper, construction, length or w)",
+        "rule": "ConstantTimeCmp vs bytes.Compare: ALL 65,536 one-byte pairs, all pairs over {00,7f,ff} up to length 5 (6 thorough), single differing byte at every position for lengths 1..64 (with and without a randomised tail), sparse differences (two bytes pulling opposite ways, only the high/low halves of 2/4/8/16-byte words aligned from either end, every k-th byte), borrow chains, extremes, l<len; DecomposeNAF for w=1..7 vs the recoding definition (digits zero/odd, |d|<2^w, >=w zeros after a non-zero, weighted sum) on single bits, 2^k-1, 2^256-2^k, byte patterns, runs at every bit offset, n, p and random 256-bit inputs; a class is (helper, construction, length or w)",
         "assumptions": ["oracles are bytes.Compare and math/big from the Go standard library"],
         "units": [gt("utils", "./utils/", "TestVerifC20")],
     },
@@ -120,9 +120,9 @@ CHECKS = {
     },
     "C10": {
         "level": "exploration",
-        "rule": "buffer-contract monitor on both paths: Seal/Open with 10 dst shapes (nil, empty non-nil, len=cap prefixes 1/16/17, exact capacity, larger capacity, one byte short) plus the in-place idioms Seal(pt[:0]) / Open(ct[:0]) over all message length classes; result must equal dst||reference output; key, nonce, aad, message and ciphertext live in PROT_READ pages (a write faults at the instruction) and are snapshot-compared; every call is executed twice on the same buffers; a class is (path, op, dst shape, kernel combination)",
+        "rule": "buffer-contract monitor on both paths: Seal/Open with 10 dst shapes (nil, empty non-nil, len=cap prefixes 1/16/17, exact capacity, larger capacity, one byte short) plus the in-place idioms Seal(pt[:0]) / Open(ct[:0]) over all message length classes; result must equal dst||reference output; key, nonce, aad, message and ciphertext live in PROT_READ pages (a write faults at the instruction) and are snapshot-compared; every call is executed twice on the same buffers; SM2: Sign/SignZa/SignHashed/Verify*/ZA/DerivePublic/CheckOnCurve/TestPrivateKey with every input slice in PROT_READ pages (mid/end/start placement), each twice, answers compared with the model; SM3: Sum(in) for 9 (len,cap) shapes and Write from read-only pages; a class is (path, op, dst shape, kernel combination | sm2 op, placement | sm3 shape)",
         "assumptions": ["reference GCM/SM3/SM2 validated at start of every run", ARM64_NOTE],
-        "units": [gt("sm4", "./sm4/", "TestVerifC10SM4")],
+        "units": [gt("sm4", "./sm4/", "TestVerifC10SM4"), gt("sm2", "./sm2/", "TestVerifC10SM2"), gt("sm3", "./sm3/", "TestVerifC10SM3")],
     },
     "C11": {
         "level": "exploration",
